@@ -6,4 +6,6 @@ From Coq Require Import extraction.Extraction ExtrOcamlBasic.
 Extraction Language OCaml.
 Extraction "model.ml"
   (* Bytes *) n2b b2n le64 le32 de lenN
-  (* Codec *) enc size dec has_type ty_ok guards_fixed guards_pinned utf8_valid.
+  (* Codec *) enc size dec has_type ty_ok guards_fixed guards_pinned utf8_valid
+  (* Db *) db_new exec transaction elements out_edges in_edges node_count edge_from edge_to
+           imap_key kvs_get dbv_eqb dbv_cmp.
